@@ -77,3 +77,35 @@ Theorem C17_gen_literals_tlb :
   lits_MsgAddressMarshal = [0; 2; 1; 2; 511; 9; 2; 2; 8; 3; 2; 9; 32] /\
   lits_MsgAddressUnmarshal = [2; 0; 1; 9; 2; 8; 32; 3; 9; 32].
 Proof. repeat split; reflexivity. Qed.
+
+(** JSON form of the TL-B address: literals (parts 1/2/3, base 10, 32-bit and
+    8-bit ParseInt, 64 hex characters) and, in source order, the comparison /
+    logical operators of MsgAddress.UnmarshalJSON (1 ==, 2 !=, 3 <, 4 <=, 5 >,
+    6 >=, 7 &&, 8 ||): the int8 test is  err == nil && num >= MinInt8 && num <= MaxInt8 *)
+Theorem C17_gen_literals_tlb_json :
+  lits_MsgAddressMarshalJSON = [] /\ ops_MsgAddressMarshalJSON = [] /\
+  lits_MsgAddressUnmarshalJSON
+  = [1; 2; 3; 3; 2; 2; 2; 2; 1; 0; 10; 32; 1; 64; 1; 32; 1; 0; 10; 8; 0; 1; 0; 10; 32; 0] /\
+  ops_MsgAddressUnmarshalJSON
+  = [1; 1; 2; 7; 2; 2; 1; 8; 2; 7; 7; 1; 6; 4; 7; 7; 1; 2; 2; 2; 2; 2; 2].
+Proof. repeat split; reflexivity. Qed.
+
+(* the comparison operators of the other modelled functions *)
+Theorem C17_gen_operators :
+  ops_ToHuman = [] /\ ops_AccountIDFromBase64Url = [2; 2; 2] /\
+  ops_AccountIDFromRaw = [1; 3; 2; 2; 2] /\ ops_MarshalTL = [] /\ ops_UnmarshalTL = [2] /\
+  ops_AccountIDFromTlb = [] /\ ops_ParseShardID = [1] /\ ops_ShardEncode = [] /\
+  ops_MatchAccountID = [1] /\ ops_shardChild = [] /\ ops_shardParent = [] /\
+  ops_convertShardIdent = [] /\ ops_ADNLAddressToBase32 = [] /\ ops_ParseADNLAddress = [2; 2; 2; 2] /\
+  ops_AnycastMarshal = [2; 2] /\ ops_AnycastUnmarshal = [2; 3; 2] /\
+  ops_MsgAddressMarshal = [2; 5; 2; 2; 2; 2; 2; 2; 2; 2] /\
+  ops_MsgAddressUnmarshal = [2; 2; 2; 2; 2; 2; 2; 2; 2; 2].
+Proof. repeat split; reflexivity. Qed.
+
+(** The parsers are modelled as pure functions: the files that hold them
+    declare no package-level variable that is zero-valued or initialised by a
+    call (a shared hasher, cache or buffer would be state shared by all
+    callers; see Proofs/C17History.v shared_crc_register_refuted) *)
+Theorem C17_gen_no_package_state :
+  pkgstate_ton_account = 0 /\ pkgstate_ton_shards = 0 /\ pkgstate_liteclient_adnl = 0.
+Proof. repeat split; reflexivity. Qed.
